@@ -468,6 +468,16 @@ func c03PkgInfoProgram(rng *core.Rand, pkg string) (src string, extra map[string
 			w.WriteString(sh.want)
 		}
 	}
+	// one short name declared twice with different signatures: unqualified in `_` first, then in
+	// the named package (declared later): the unqualified name keeps denoting the local function
+	{
+		infoLocal.WriteString("  let SameName: string->int\n  let SameWrap: string->string->string\n")
+		wrap.WriteString("func SameName(s string) int {\n\tfmt.Println(\"local SameName\", s)\n\treturn len(s)\n}\n\nfunc SameWrap(a string, b string) string {\n\tfmt.Println(\"local SameWrap\", a, b)\n\treturn a + b + a\n}\n\n")
+		infoExt.WriteString("  let SameName: string->string\n  let SameWrap: string->int->string\n")
+		ext.WriteString("func SameName(s string) string {\n\tfmt.Println(\"ext SameName\", s)\n\treturn s + \"?\"\n}\n\nfunc SameWrap(a string, n int) string {\n\tfmt.Println(\"ext SameWrap\", a, n)\n\treturn fmt.Sprint(a, n)\n}\n\n")
+		body.WriteString("  frt.Printf1 \"%d\\n\" (SameName \"abc\" + SameName \"de\")\n  frt.Println (extp.SameName \"abc\")\n  frt.Println (\"x\" |> SameWrap \"[\")\n  frt.Println (extp.SameWrap \"n\" 4)\n")
+		w.WriteString("local SameName abc\nlocal SameName de\n5\next SameName abc\nabc?\nlocal SameWrap [ x\n[x[\next SameWrap n 4\nn4\n")
+	}
 	fo.WriteString(infoLocal.String() + "\n" + infoExt.String() + "\n")
 	fo.WriteString("let Run () =\n" + body.String() + "  frt.Printf1 \"%d\\n\" (slice.Length [1])\n  frt.Println \"end\"\n")
 	w.WriteString("1\nend\n")
